@@ -326,6 +326,34 @@ def load_known():
         return json.load(f).get("findings", [])
 
 
+_EVAL_CACHE = {}
+
+
+def evaluate(o, config, facts_by_config, specimen_by_config):
+    """Evaluate one obligation once per configuration (cached for the process); returns a Result
+    carrying ALL its checks (property filtering happens in run_property)."""
+    key = (o.id, config)
+    if key in _EVAL_CACHE:
+        return _EVAL_CACHE[key]
+    cx = Cx(None, o, config, facts_by_config[config], specimen_by_config.get(config) or specimen_by_config.get("default"))
+    try:
+        o.fn(cx)
+        if cx.res.soft and not cx.res.inconclusive:
+            cx.res.inconclusive = "; ".join(cx.res.soft[:3])
+        if not cx.res.checks and not cx.res.inconclusive:
+            cx.res.inconclusive = "obligation evaluated no instance (vacuous)"
+    except Inconclusive as e:
+        cx.res.inconclusive = "; ".join([str(e)] + cx.res.soft[:2])
+    except Exception as e:  # fail closed, never as a violation
+        cx.res.inconclusive = "checker error: %s: %s @ %s" % (
+            type(e).__name__,
+            e,
+            traceback.format_exc().strip().splitlines()[-3:],
+        )
+    _EVAL_CACHE[key] = cx.res
+    return cx.res
+
+
 def run_property(prop, tier, facts_by_config, specimen_by_config, seed=0):
     """Evaluate all obligations serving `prop`. Returns (exit_code, lines, evidence)."""
     t0 = time.time()
@@ -337,32 +365,24 @@ def run_property(prop, tier, facts_by_config, specimen_by_config, seed=0):
             continue
         if o.tier == "t" and tier != "thorough":
             continue
-        for config in o.configs:
+        configs = o.configs
+        if tier == "thorough" and o.configs == ("default",):
+            configs = ("default", "persistence", "nodefault")
+        for config in configs:
             if config not in facts_by_config:
                 if tier == "thorough" or config == "default":
                     r = Result(o, config)
                     r.inconclusive = "facts for configuration %r unavailable" % config
                     results.append(r)
                 continue
-            cx = Cx(None, o, config, facts_by_config[config], specimen_by_config.get(config))
-            try:
-                o.fn(cx)
-                if cx.res.soft and not cx.res.inconclusive:
-                    cx.res.inconclusive = "; ".join(cx.res.soft[:3])
-                if not cx.res.checks and not cx.res.inconclusive:
-                    cx.res.inconclusive = "obligation evaluated no instance (vacuous)"
-            except Inconclusive as e:
-                cx.res.inconclusive = "; ".join([str(e)] + cx.res.soft[:2])
-            except Exception as e:  # fail closed, never as a violation
-                cx.res.inconclusive = "checker error: %s: %s @ %s" % (
-                    type(e).__name__,
-                    e,
-                    traceback.format_exc().strip().splitlines()[-3:],
-                )
-            cx.res.checks = [c for c in cx.res.checks if (c.get("props") is None and prop in o.props) or (c.get("props") and prop in c["props"])]
-            if not cx.res.checks and not cx.res.inconclusive:
+            full = evaluate(o, config, facts_by_config, specimen_by_config)
+            r = Result(o, config)
+            r.inconclusive = full.inconclusive
+            r.notes = full.notes
+            r.checks = [c for c in full.checks if (c.get("props") is None and prop in o.props) or (c.get("props") and prop in c["props"])]
+            if not r.checks and not (r.inconclusive and prop in o.props):
                 continue  # nothing of this obligation concerns this property
-            results.append(cx.res)
+            results.append(r)
     lines = []
     exit_code = 0
     nviol = 0
